@@ -251,6 +251,14 @@ def luna_long_histories(rng, n):
         ops += ["select_whole %d" % rng.choice([0, 1]), "commit", "clear", "type " + x, "clear",
                 "type " + "".join(syl[:4]), "select_completion 0", "commit", "clear", "type " + x, "select_whole 0", "commit", "clear",
                 "restart_session", "type " + x, "clear", "type " + "".join(syl[:4]), "select_completion 0", "commit", "clear"]
+        # (4) a commit followed AT ONCE by another commit, with no dictionary lookup in between (a punctuation key that commits
+        # directly): both must be stored; (5) the learned phrase deleted from the menu of its four-syllable prefix, where it
+        # is offered as a completion: marked deleted, no longer offered
+        y = "".join(rng.choice(LUNA_LONG)[:3])
+        ops += ["type " + y, "select_part 1", "select_part 1", "select_whole 1", "commit", "key 44 0", "clear", "type " + y, "clear",
+                "type " + y, "select_whole 0", "commit", "key 46 0", "key 44 0", "clear", "type " + y, "clear",
+                "type " + "".join(syl[:4]), "delete_completion 0", "clear", "type " + "".join(syl[:4]), "clear", "type " + x, "clear",
+                "restart_session", "type " + x, "clear"]
         out.append(ops)
     return out
 
